@@ -12,10 +12,39 @@ HARNESSES = [
     for _mask in (3, 1)
 ]
 
+# ---- ordering of the external-import table (a_c06c10) ---------------------------------------------------------------
+_CP = 'src/cppparser/'
+_IMPORT_TUS = ['src/interrogate/interfaceMakerPythonNative.cxx', 'src/interrogate/interrogate.cxx'] + \
+    [_CP + x for x in ('cppStructType.cxx', 'cppExtensionType.cxx', 'cppScope.cxx', 'cppIdentifier.cxx', 'cppNameComponent.cxx',
+                       'cppType.cxx', 'cppDeclaration.cxx', 'cppAttributeList.cxx', 'cppFile.cxx')] + ['src/dtoolutil/filename.cxx']
+# the comparator lambda of std::sort in InterfaceMakerPythonNative::write_prototypes, as clang and as g++ mangle it
+_LAMBDA_CLANG = '"_ZZN26InterfaceMakerPythonNative16write_prototypesERSoPSoENK3$_0clEPK7CPPTypeS5_"'
+_LAMBDA_GCC = '_ZZN26InterfaceMakerPythonNative16write_prototypesERSoPSoENKUlPK7CPPTypeS4_E_clES4_S4_'
+
+
+def _import_order(hid, sym, desc, domain):
+    return dict(id=hid, property='C14', src='c14_import_order.cxx', entry='harness_c14_import_order', tus=_IMPORT_TUS,
+                export=[_LAMBDA_CLANG, _LAMBDA_GCC], tuflags=['-fno-inline', '-fno-pic'], models=['noinline.c'],
+                skip_ctors=[x.split('/')[-1] for x in _IMPORT_TUS],
+                desc=desc, domain=domain,
+                oracle='the REAL comparator lambda (exported from its TU) is a strict order without ties on two distinct types: '
+                       'exactly one of less(a,b), less(b,a) holds, and less(a,a) is false',
+                bounds=dict(quick=dict(defs=dict(SYMBOLIC=sym), unwind=24, unwindset={'ll_memcpy.0': 48, 'll_memmove.0': 48}, cap=300)))
+
+
+HARNESSES += [
+    _import_order('c14_import_order', 0,
+                  'sort key of the external-import table (write_prototypes) on NameTable::Entry vs SlotTable::Entry and controls',
+                  'classes NameTable, SlotTable, NameTable::Entry, SlotTable::Entry built with the real constructors under the global scope'),
+    _import_order('c14_import_order_sym', 1,
+                  'sort key of the external-import table on two nested classes with symbolic names',
+                  'classes T<o1>::E<i1> and T<o2>::E<i2>, letters o1,o2,i1,i2 symbolic in a..z with (o1,i1) != (o2,i2)'),
+]
+
 PROPERTY_INFO = {
     'C14': dict(level='model_checking',
                 explanation='bounded symbolic execution (CBMC) of the real main(): clock and environment are symbolic variables',
-                outside='byte-identity of whole runs across ASLR, heap layout, environment size, locale, TZ (would need the allocator as a symbolic input; a counterexample could not be replayed against the real binary); ordering of pointer-keyed containers',
+                outside='byte-identity of whole runs across ASLR, heap layout, environment size, locale, TZ (would need the allocator as a symbolic input; a counterexample could not be replayed against the real binary); ordering of pointer-keyed containers other than the external-import table, whose sort key is checked to be tie-free',
                 assumptions=['strtol modelled for up to 3 digits; parser/builder/database entry points are stand-ins']),
 }
 NOT_APPLICABLE = {}
